@@ -94,6 +94,13 @@ type Machine struct {
 	fsEvents   []string
 	stubsUsed  map[string]int
 	findings   map[string]bool
+	bugs       int
+	nGlobals   int
+	bigFree    map[int][][]value
+	bigUsed    [][]value
+	fnIdx      map[*ssa.Function]map[ssa.Value]int
+	posCache   map[token.Pos]string
+	forkStats  map[string]int
 }
 
 type event struct {
@@ -123,7 +130,8 @@ type frame struct {
 	caller           *frame
 	fn               *ssa.Function
 	block, prevBlock *ssa.BasicBlock
-	env              map[ssa.Value]value
+	env              []value
+	idx              map[ssa.Value]int
 	locals           []value
 	defers           *deferred
 	result           value
@@ -159,6 +167,10 @@ func (m *Machine) assume(c *Term) {
 // to another shard is skipped by this worker).
 func (m *Machine) noteFork(d *decision) {
 	m.transitions++
+	if m.forkStats == nil {
+		m.forkStats = map[string]int{}
+	}
+	m.forkStats[d.what]++
 }
 
 func (m *Machine) checkShard() {
@@ -346,6 +358,8 @@ func parseValue(l string) uint64 {
 	return n
 }
 
+func (fr *frame) set(key ssa.Value, v value) { fr.env[fr.idx[key]] = v }
+
 func (fr *frame) get(key ssa.Value) value {
 	switch key := key.(type) {
 	case nil:
@@ -358,12 +372,16 @@ func (fr *frame) get(key ssa.Value) value {
 		if r, ok := fr.m.globals[key]; ok {
 			return r
 		}
+		if r := fr.m.aliasGlobal(key); r != nil {
+			fr.m.globals[key] = r
+			return r
+		}
 		cell := zero(deref(key.Type()))
 		fr.m.globals[key] = &cell
 		return &cell
 	}
-	if r, ok := fr.env[key]; ok {
-		return r
+	if i, ok := fr.idx[key]; ok {
+		return fr.env[i]
 	}
 	panic(fmt.Sprintf("get: no value for %T: %v in %v", key, key.Name(), fr.fn))
 }
@@ -474,18 +492,46 @@ func (m *Machine) callSSA(caller *frame, fn *ssa.Function, args []value, env []v
 		m.abort("no code for function %s", fn.String())
 	}
 	m.fnCalls[fn]++
-	fr.env = make(map[ssa.Value]value)
+	idx, ok := m.fnIdx[fn]
+	if !ok {
+		idx = map[ssa.Value]int{}
+		add := func(v ssa.Value) { idx[v] = len(idx) }
+		for _, p := range fn.Params {
+			add(p)
+		}
+		for _, p := range fn.FreeVars {
+			add(p)
+		}
+		for _, l := range fn.Locals {
+			add(l)
+		}
+		for _, b := range fn.Blocks {
+			for _, in := range b.Instrs {
+				if v, isV := in.(ssa.Value); isV {
+					if _, dup := idx[v]; !dup {
+						add(v)
+					}
+				}
+			}
+		}
+		if m.fnIdx == nil {
+			m.fnIdx = map[*ssa.Function]map[ssa.Value]int{}
+		}
+		m.fnIdx[fn] = idx
+	}
+	fr.idx = idx
+	fr.env = make([]value, len(idx))
 	fr.block = fn.Blocks[0]
 	fr.locals = make([]value, len(fn.Locals))
 	for i, l := range fn.Locals {
 		fr.locals[i] = zero(deref(l.Type()))
-		fr.env[l] = &fr.locals[i]
+		fr.set(l, &fr.locals[i])
 	}
 	for i, p := range fn.Params {
-		fr.env[p] = args[i]
+		fr.set(p, args[i])
 	}
 	for i, fv := range fn.FreeVars {
-		fr.env[fv] = env[i]
+		fr.set(fv, env[i])
 	}
 	for fr.block != nil {
 		m.runFrame(fr)
@@ -562,24 +608,24 @@ func (m *Machine) visitInstr(fr *frame, instr ssa.Instruction) continuation {
 	switch instr := instr.(type) {
 	case *ssa.DebugRef:
 	case *ssa.UnOp:
-		fr.env[instr] = m.unop(instr, fr.get(instr.X))
+		fr.set(instr, m.unop(instr, fr.get(instr.X)))
 	case *ssa.BinOp:
-		fr.env[instr] = m.binop(instr.Op, instr.X.Type(), fr.get(instr.X), fr.get(instr.Y))
+		fr.set(instr, m.binop(instr.Op, instr.X.Type(), fr.get(instr.X), fr.get(instr.Y)))
 	case *ssa.Call:
 		fn, args := m.prepareCall(fr, &instr.Call)
-		fr.env[instr] = m.call(fr, fn, args)
+		fr.set(instr, m.call(fr, fn, args))
 	case *ssa.ChangeInterface:
-		fr.env[instr] = fr.get(instr.X)
+		fr.set(instr, fr.get(instr.X))
 	case *ssa.ChangeType:
-		fr.env[instr] = fr.get(instr.X)
+		fr.set(instr, fr.get(instr.X))
 	case *ssa.Convert:
-		fr.env[instr] = m.conv(instr.Type(), instr.X.Type(), fr.get(instr.X))
+		fr.set(instr, m.conv(instr.Type(), instr.X.Type(), fr.get(instr.X)))
 	case *ssa.MakeInterface:
-		fr.env[instr] = iface{t: instr.X.Type(), v: fr.get(instr.X)}
+		fr.set(instr, iface{t: instr.X.Type(), v: fr.get(instr.X)})
 	case *ssa.Extract:
-		fr.env[instr] = fr.get(instr.Tuple).(tuple)[instr.Index]
+		fr.set(instr, fr.get(instr.Tuple).(tuple)[instr.Index])
 	case *ssa.Slice:
-		fr.env[instr] = m.slice(fr.get(instr.X), fr.get(instr.Low), fr.get(instr.High), fr.get(instr.Max))
+		fr.set(instr, m.slice(fr.get(instr.X), fr.get(instr.Low), fr.get(instr.High), fr.get(instr.Max)))
 	case *ssa.Return:
 		switch len(instr.Results) {
 		case 0:
@@ -607,7 +653,11 @@ func (m *Machine) visitInstr(fr *frame, instr ssa.Instruction) continuation {
 	case *ssa.If:
 		c := fr.get(instr.Cond).(*Term)
 		succ := 1
-		if m.decide("if@"+m.pos(instr.Cond.Pos(), fr), c) {
+		if c.IsConst() {
+			if c.Val == 1 {
+				succ = 0
+			}
+		} else if m.decide("if@"+m.pos(instr.Cond.Pos(), fr), c) {
 			succ = 0
 		}
 		fr.prevBlock, fr.block = fr.block, fr.block.Succs[succ]
@@ -622,9 +672,9 @@ func (m *Machine) visitInstr(fr *frame, instr ssa.Instruction) continuation {
 		var addr *value
 		if instr.Heap {
 			addr = new(value)
-			fr.env[instr] = addr
+			fr.set(instr, addr)
 		} else {
-			addr = fr.env[instr].(*value)
+			addr = fr.get(instr).(*value)
 		}
 		*addr = zero(deref(instr.Type()))
 	case *ssa.MakeSlice:
@@ -635,44 +685,60 @@ func (m *Machine) visitInstr(fr *frame, instr ssa.Instruction) continuation {
 		if l < 0 || c < l || c > 1<<28 {
 			m.goPanic("makeslice: len out of range")
 		}
-		s := make([]value, c)
 		tElt := instr.Type().Underlying().(*types.Slice).Elem()
 		z := zero(tElt)
-		for i := range s {
-			s[i] = copyVal(z)
+		var s []value
+		if _, scalar := z.(*Term); scalar && c >= 4096 {
+			s = m.bigSlice(c)
+		} else {
+			s = make([]value, c)
 		}
-		fr.env[instr] = s[:l]
+		if _, scalar := z.(*Term); scalar {
+			for i := range s {
+				s[i] = z
+			}
+		} else {
+			for i := range s {
+				s[i] = copyVal(z)
+			}
+		}
+		fr.set(instr, s[:l])
 	case *ssa.MakeMap:
-		fr.env[instr] = &mapV{keyT: instr.Type().Underlying().(*types.Map).Key()}
+		fr.set(instr, &mapV{keyT: instr.Type().Underlying().(*types.Map).Key()})
 	case *ssa.MakeChan:
 		n := int(m.concretize("makechan", fr.get(instr.Size).(*Term), 4))
-		fr.env[instr] = &chanV{cap: n, elemT: instr.Type().Underlying().(*types.Chan).Elem()}
+		fr.set(instr, &chanV{cap: n, elemT: instr.Type().Underlying().(*types.Chan).Elem()})
 	case *ssa.Range:
-		fr.env[instr] = m.rangeIter(fr.get(instr.X), instr.X.Type())
+		fr.set(instr, m.rangeIter(fr.get(instr.X), instr.X.Type()))
 	case *ssa.Next:
-		fr.env[instr] = fr.get(instr.Iter).(iter).next()
+		fr.set(instr, fr.get(instr.Iter).(iter).next())
 	case *ssa.FieldAddr:
 		p := fr.get(instr.X).(*value)
 		if p == nil {
 			m.goPanic("nil pointer dereference (field " + instr.String() + ")")
 		}
-		fr.env[instr] = &(*p).(structure)[instr.Field]
+		fr.set(instr, &(*p).(structure)[instr.Field])
 	case *ssa.Field:
-		fr.env[instr] = fr.get(instr.X).(structure)[instr.Field]
+		fr.set(instr, fr.get(instr.X).(structure)[instr.Field])
 	case *ssa.IndexAddr:
 		x := fr.get(instr.X)
 		idx := fr.get(instr.Index).(*Term)
 		switch x := x.(type) {
 		case []value:
-			i := m.index("indexaddr@"+m.pos(instr.Pos(), fr), idx, len(x))
-			fr.env[instr] = &x[i]
+			var i int
+			if idx.IsConst() && idx.Val < uint64(len(x)) {
+				i = int(idx.Val)
+			} else {
+				i = m.index("indexaddr@"+m.pos(instr.Pos(), fr), idx, len(x))
+			}
+			fr.set(instr, &x[i])
 		case *value:
 			if x == nil {
 				m.goPanic("nil pointer dereference (index)")
 			}
 			a := (*x).(array)
 			i := m.index("indexaddr@"+m.pos(instr.Pos(), fr), idx, len(a))
-			fr.env[instr] = &a[i]
+			fr.set(instr, &a[i])
 		default:
 			panic(fmt.Sprintf("unexpected x type in IndexAddr: %T", x))
 		}
@@ -681,14 +747,14 @@ func (m *Machine) visitInstr(fr *frame, instr ssa.Instruction) continuation {
 		idx := fr.get(instr.Index).(*Term)
 		switch x := x.(type) {
 		case array:
-			fr.env[instr] = x[m.index("index", idx, len(x))]
+			fr.set(instr, x[m.index("index", idx, len(x))])
 		case string:
-			fr.env[instr] = BV(8, uint64(x[m.index("index", idx, len(x))]))
+			fr.set(instr, BV(8, uint64(x[m.index("index", idx, len(x))])))
 		default:
 			panic(fmt.Sprintf("unexpected x type in Index: %T", x))
 		}
 	case *ssa.Lookup:
-		fr.env[instr] = m.lookup(instr, fr.get(instr.X), fr.get(instr.Index))
+		fr.set(instr, m.lookup(instr, fr.get(instr.X), fr.get(instr.Index)))
 	case *ssa.MapUpdate:
 		mp := fr.get(instr.Map).(*mapV)
 		if mp == nil {
@@ -696,13 +762,13 @@ func (m *Machine) visitInstr(fr *frame, instr ssa.Instruction) continuation {
 		}
 		m.mapSet(mp, fr.get(instr.Key), copyVal(fr.get(instr.Value)))
 	case *ssa.TypeAssert:
-		fr.env[instr] = m.typeAssert(instr, fr.get(instr.X).(iface))
+		fr.set(instr, m.typeAssert(instr, fr.get(instr.X).(iface)))
 	case *ssa.MakeClosure:
 		var bindings []value
 		for _, b := range instr.Bindings {
 			bindings = append(bindings, fr.get(b))
 		}
-		fr.env[instr] = &closure{instr.Fn.(*ssa.Function), bindings}
+		fr.set(instr, &closure{instr.Fn.(*ssa.Function), bindings})
 	case *ssa.Go:
 		fn, args := m.prepareCall(fr, &instr.Call)
 		m.spawn(m.pos(instr.Pos(), fr), fn, args)
@@ -710,7 +776,7 @@ func (m *Machine) visitInstr(fr *frame, instr ssa.Instruction) continuation {
 		c, _ := fr.get(instr.Chan).(*chanV)
 		m.chanSend(c, copyVal(fr.get(instr.X)))
 	case *ssa.Select:
-		fr.env[instr] = m.doSelect(fr, instr)
+		fr.set(instr, m.doSelect(fr, instr))
 	case *ssa.SliceToArrayPointer:
 		x := fr.get(instr.X).([]value)
 		n := int(deref(instr.Type()).Underlying().(*types.Array).Len())
@@ -718,11 +784,11 @@ func (m *Machine) visitInstr(fr *frame, instr ssa.Instruction) continuation {
 			m.goPanic("slice to array pointer: slice too short")
 		}
 		var av value = array(x[:n:n])
-		fr.env[instr] = &av
+		fr.set(instr, &av)
 	case *ssa.Phi:
 		for i, pred := range instr.Block().Preds {
 			if fr.prevBlock == pred {
-				fr.env[instr] = fr.get(instr.Edges[i])
+				fr.set(instr, fr.get(instr.Edges[i]))
 				break
 			}
 		}
@@ -737,6 +803,18 @@ func (m *Machine) pos(p token.Pos, fr *frame) string {
 	if p == token.NoPos {
 		return fr.fn.Name()
 	}
+	if s, ok := m.posCache[p]; ok {
+		return s
+	}
+	s := m.pos1(p, fr)
+	if m.posCache == nil {
+		m.posCache = map[token.Pos]string{}
+	}
+	m.posCache[p] = s
+	return s
+}
+
+func (m *Machine) pos1(p token.Pos, fr *frame) string {
 	ps := m.prog.Fset.Position(p)
 	f := ps.Filename
 	if i := strings.LastIndex(f, "/"); i >= 0 {
@@ -804,4 +882,53 @@ func (m *Machine) callerPos(fr *frame) string {
 		return fr.caller.fn.Name()
 	}
 	return "?"
+}
+
+// aliasGlobal provides sentinels of std packages whose initialisers are not run.
+func (m *Machine) aliasGlobal(g *ssa.Global) *value {
+	if g.Pkg == nil {
+		return nil
+	}
+	switch g.Pkg.Pkg.Path() {
+	case "os":
+		switch g.Name() {
+		case "ErrInvalid", "ErrPermission", "ErrExist", "ErrNotExist", "ErrClosed":
+			fsp := m.prog.ImportedPackage("io/fs")
+			if fsp == nil {
+				return nil
+			}
+			m.call(nil, fsp.Func("init"), nil)
+			tg := fsp.Var(g.Name())
+			if r, ok := m.globals[tg]; ok {
+				return r
+			}
+		}
+	}
+	return nil
+}
+
+// bigSlice returns a large scalar slice, recycled from earlier paths when possible
+// (nothing of a finished path stays reachable, so its buffers can be reused).
+func (m *Machine) bigSlice(c int) []value {
+	if l := m.bigFree[c]; len(l) > 0 {
+		s := l[len(l)-1]
+		m.bigFree[c] = l[:len(l)-1]
+		m.bigUsed = append(m.bigUsed, s)
+		return s
+	}
+	s := make([]value, c)
+	m.bigUsed = append(m.bigUsed, s)
+	return s
+}
+
+func (m *Machine) recycleBig() {
+	if m.bigFree == nil {
+		m.bigFree = map[int][][]value{}
+	}
+	for _, s := range m.bigUsed {
+		if len(m.bigFree[cap(s)]) < 64 {
+			m.bigFree[cap(s)] = append(m.bigFree[cap(s)], s[:cap(s)])
+		}
+	}
+	m.bigUsed = m.bigUsed[:0]
 }
